@@ -95,6 +95,11 @@ public:
       uint32_t num_compressed_words // input
   ) const;
 
+  // upper bounds (in 32-bit words) on the compressed data of a sketch with k rows; also used to validate images
+  static size_t safe_length_for_compressed_pair_buf(uint32_t k, uint32_t num_pairs, uint8_t num_base_bits);
+  static size_t safe_length_for_compressed_window_buf(uint32_t k);
+  static inline uint8_t golomb_choose_number_of_base_bits(uint32_t k, uint64_t count);
+
 private:
   // These decoding tables are created at library startup time by inverting the encoding tables
   uint16_t* decoding_tables_for_high_entropy_byte[22] = {
@@ -141,12 +146,9 @@ private:
   vector_u32 uncompress_surprising_values(const uint32_t* data, uint32_t data_words, uint32_t num_pairs, uint8_t lg_k, const A& allocator) const;
   void uncompress_sliding_window(const uint32_t* data, uint32_t data_words, vector_bytes& window, uint8_t lg_k, uint32_t num_coupons) const;
 
-  static size_t safe_length_for_compressed_pair_buf(uint32_t k, uint32_t num_pairs, uint8_t num_base_bits);
-  static size_t safe_length_for_compressed_window_buf(uint32_t k);
   static uint8_t determine_pseudo_phase(uint8_t lg_k, uint32_t c);
 
   static inline vector_u32 tricky_get_pairs_from_window(const uint8_t* window, uint32_t k, uint32_t num_pairs_to_get, uint32_t empty_space, const A& allocator);
-  static inline uint8_t golomb_choose_number_of_base_bits(uint32_t k, uint64_t count);
 };
 
 } /* namespace datasketches */
